@@ -59,6 +59,36 @@ func sum(base int, xs ...int) int {
 	return base
 }
 
+type shaper interface {
+	area() int
+	Name() string
+}
+
+type sq struct{ s int }
+
+func (q sq) area() int    { return q.s * q.s }
+func (q sq) Name() string { return "sq" }
+
+type pt struct{ x, y int }
+
+type onlyName struct{}
+
+func (onlyName) Name() string { return "" }
+
+type onlyArea struct{}
+
+func (onlyArea) area() int { return 0 }
+
+type wrongSig struct{}
+
+func (wrongSig) area() string { return "" }
+func (wrongSig) Name() string { return "" }
+
+type ptrRecv struct{}
+
+func (*ptrRecv) area() int    { return 0 }
+func (*ptrRecv) Name() string { return "" }
+
 func pair() (int, string) { return 1, "a" }
 
 func apply(f func(int) int, v int) int { return f(v) }
@@ -127,6 +157,16 @@ func body() {
 	arr[1].X = 5
 	const k8 int8 = 100
 	_ = k8
+	var sh2 shaper = sq{2}
+	if a1, ok := sh2.(sq); ok {
+		_ = a1
+	}
+	a2 := sh2.(*ptrRecv)
+	_ = a2
+	switch a3 := sh2.(type) {
+	case sq:
+		_ = a3
+	}
 	okc := n > 0
 	if okc { n = 10 }
 	if okc { n = 11 } else { n = 12 }
@@ -157,6 +197,20 @@ type textMut struct {
 
 // the catalogue (operator names mirror the message families of typecheck.go / cfg.go)
 var textMuts = []textMut{
+	// impossible type assertions (typecheck.go typeAssertionExpr) and type switch cases
+	{"assert-missing-unexported-and-exported-struct", `sh2.(sq); ok`, `sh2.(pt); ok`},
+	{"assert-missing-unexported-method", `sh2.(sq); ok`, `sh2.(onlyName); ok`},
+	{"assert-missing-exported-method", `sh2.(sq); ok`, `sh2.(onlyArea); ok`},
+	{"assert-missing-methods-basic-type", `sh2.(sq); ok`, `sh2.(int); ok`},
+	{"assert-missing-methods-defined-type", `sh2.(sq); ok`, `sh2.(celsius); ok`},
+	{"assert-wrong-signature", `sh2.(sq); ok`, `sh2.(wrongSig); ok`},
+	{"assert-missing-methods-struct-pointer", `a2 := sh2.(*ptrRecv)`, `a2 := sh2.(*pt)`},
+	{"assert-pointer-receiver-value-type", `a2 := sh2.(*ptrRecv)`, `a2 := sh2.(ptrRecv)`},
+	{"assert-non-interface-operand", `a2 := sh2.(*ptrRecv)`, `a2 := np.(*ptrRecv)`},
+	{"assert-missing-unexported-single-value", `a2 := sh2.(*ptrRecv)`, `a2 := sh2.(onlyName)`},
+	{"typeswitch-impossible-case", "\tcase sq:\n\t\t_ = a3", "\tcase pt:\n\t\t_ = a3"},
+	{"typeswitch-impossible-case-unexported", "\tcase sq:\n\t\t_ = a3", "\tcase onlyName:\n\t\t_ = a3"},
+	{"typeswitch-non-interface-operand", `switch a3 := sh2.(type) {`, `switch a3 := n.(type) {`},
 	// a constant non-boolean condition in each of the eight if / for forms of cfg.go (F11, repaired)
 	{"cond-ifStmt0-constant", `if okc { n = 10 }`, `if 1 { n = 10 }`},
 	{"cond-ifStmt1-constant", `if okc { n = 11 }`, `if "a" { n = 11 }`},
